@@ -86,6 +86,27 @@ def run(tier, seed):
         pd, reg = regsim.build(s)
         exp = "accept" if -10000 <= off_ms <= 9000 else ("reject" if (off_ms <= -11000 or off_ms > 10000) else None)
         B.run_case(regrun.policy_of(pd), reg, "dict", exp, f"safetynet-ts{off_ms:+d}ms", scn=s)
+    # 2b. SafetyNet: the chain is judged at the VERIFIER's clock, not at the attestation's own timestamp (which may differ by up to 10 s);
+    #     and the timestamp window applies whatever the other verdict members say
+    for what, nb, na, now, ts_off, exp in (("leaf expired 4 s ago, timestamp 8 s ago", T0 - DAY, T0 + 100, T0 + 104, -8, "reject"),
+                                           ("leaf expired 1 s ago, timestamp 9 s ago", T0 - DAY, T0 + 100, T0 + 101, -9, "reject"),
+                                           ("leaf valid in 5 s, timestamp 8 s ahead", T0 + 5, T0 + DAY, T0, 8, "reject"),
+                                           ("leaf valid, timestamp 8 s ago (control)", T0 - DAY, T0 + DAY, T0, -8, "accept")):
+        s = regsim.RScn("android-safetynet", "ES256-P256")
+        s.n_inter = 1
+        s.k["leaf_nb"], s.k["leaf_na"] = nb, na
+        s.now = now
+        s.k["sn_timestamp"] = (now + ts_off) * 1000
+        pd, reg = regsim.build(s)
+        B.run_case(regrun.policy_of(pd), reg, "dict", exp, f"safetynet-chain-at-verifier-clock: {what}", scn=s)
+    for cts in (True, False, None):
+        for basic in (True,):
+            for off_ms, exp in ((-2000, "accept"), (-30000, "reject"), (-3600000, "reject"), (3600000, "reject"), (-12 * 3600000, "reject")):
+                s = regsim.RScn("android-safetynet", "ES256-P256")
+                s.k["sn_cts"] = cts
+                s.k["sn_timestamp"] = T0 * 1000 + off_ms
+                pd, reg = regsim.build(s)
+                B.run_case(regrun.policy_of(pd), reg, "dict", exp, f"safetynet-ts{off_ms:+d}ms ctsProfileMatch={cts}", scn=s)
     # 3. certificate windows: clock dense around each boundary
     sparse = [-400 * DAY, -30 * DAY, 30 * DAY, 2000 * DAY]
     for fmt in regsim.X5C_FORMATS:
